@@ -226,6 +226,20 @@ def _rt_atomic(prop, q, t):
 
 for _p in ('C06', 'C01', 'C04', 'C08'):
     CHECKS[_p]['stages'].append(_rt_atomic(_p, 1500, 40000))
+
+
+def _e4_atomic(prop, q, t):
+    st = _e4(prop, q, t, 20)
+    st['variant'] = 'core_mpi_atomics'
+    st['name'] = 'h_mpi(DET, 1..4 ranks, atomic steps)'
+    st['hx'] = st['hx'] + ['tsan_hooks.c']
+    st['env'] = dict(st.get('env', {}), RSV_ATOMIC_STEPS=1)
+    st['quick'] = dict(st['quick'], time_budget=70)
+    return st
+
+
+for _p in ('C02', 'C06'):
+    CHECKS[_p]['stages'].append(_e4_atomic(_p, 700, 20000))
 CHECKS['C15']['stages'].append(stage('h_queue', ['h_queue.c', 'tsan_hooks.c'], name='h_queue(DET, atomic steps)', variant='core_atomics',
                                      quick=dict(cases=8000, min_nontrivial=500, time_budget=60, case_timeout=60),
                                      thorough=dict(cases=160000, min_nontrivial=5000, time_budget=600, case_timeout=60),
